@@ -191,6 +191,10 @@ pub enum CreatorKind {
     CursorVec,
     TempFile,
     Instrumented,
+    /// chunk storage that uses grenad itself inside every read and write
+    InstrumentedReentrant,
+    /// chunk storage whose written bytes become readable only after `flush`
+    InstrumentedStaging,
 }
 
 #[derive(Clone, Debug, PartialEq, Eq, Hash, Serialize, Deserialize)]
@@ -289,7 +293,7 @@ pub fn sconf_small() -> BoxedStrategy<SConf> {
         any::<bool>(),
         prop_oneof![3 => Just(false), 1 => Just(true)],
         chunk,
-        prop_oneof![6 => Just(CreatorKind::CursorVec), 1 => Just(CreatorKind::TempFile), 4 => Just(CreatorKind::Instrumented)],
+        prop_oneof![6 => Just(CreatorKind::CursorVec), 1 => Just(CreatorKind::TempFile), 4 => Just(CreatorKind::Instrumented), 1 => Just(CreatorKind::InstrumentedReentrant), 2 => Just(CreatorKind::InstrumentedStaging)],
     )
         .prop_map(|(thr, cap, allow_realloc, max_nb_chunks, stable, parallel, (chunk_codec, chunk_level, block_size, interval, levels), creator)| {
             // the initial capacity never exceeds the budget (DESIGN 6.5)
